@@ -1,3 +1,164 @@
 import EpsicProofs.FieldArith
+import Mathlib.Algebra.Order.Field.Basic
+import Mathlib.Tactic.Linarith
+import Mathlib.Tactic.Positivity
+/-! # C08 — covariant mode pairs deliver jointly drawn factors
+
+`Sim.Coord.request` is `covariant_mode::modulation()` (queue per mode, `coordinator->get()` when the
+queue is empty).  The pairing theorem holds for **every** interleaving of requests of **every** length. -/
+set_option linter.unusedSectionVars false
+set_option linter.unusedVariables false
 namespace Epsic.C08
+open Epsic Epsic.Sim
+
+section pairing
+variable {β : Type}
+
+/-- one request applied to (state, delivered-to-A, delivered-to-B); `src k` is the `k`-th joint draw -/
+def stepFn (src : Nat → β × β) (acc : Coord β × List β × List β) (isB : Bool) : Coord β × List β × List β :=
+  let r := acc.1.request isB (src acc.1.draws.length)
+  match r.2.1 with
+  | none => (r.1, acc.2.1, acc.2.2)
+  | some x => if isB then (r.1, acc.2.1, acc.2.2 ++ [x]) else (r.1, acc.2.1 ++ [x], acc.2.2)
+/-- run a list of requests; returns the final state and the values delivered to A and to B, in order -/
+def run (src : Nat → β × β) (reqs : List Bool) : Coord β × List β × List β :=
+  reqs.foldl (stepFn src) (⟨[], [], []⟩, [], [])
+
+/-- the invariant: the draws made so far are the first `n` of the source; what A (B) has received
+followed by what is still queued for A (B) is the list of first (second) components of those draws -/
+def Inv (src : Nat → β × β) (st : Coord β × List β × List β) : Prop :=
+  st.1.draws = (List.range st.1.draws.length).map src ∧
+  st.2.1 ++ st.1.qA = st.1.draws.map Prod.fst ∧
+  st.2.2 ++ st.1.qB = st.1.draws.map Prod.snd
+
+theorem inv_init (src : Nat → β × β) : Inv src (⟨[], [], []⟩, [], []) := by simp [Inv]
+
+theorem inv_step (src : Nat → β × β) (st : Coord β × List β × List β) (isB : Bool) (h : Inv src st) :
+    Inv src (stepFn src st isB) := by
+  obtain ⟨c, da, db⟩ := st
+  obtain ⟨hd, ha, hb⟩ := h
+  simp only at hd ha hb
+  have hrange : ∀ n : Nat, List.map src (List.range (n + 1)) = List.map src (List.range n) ++ [src n] := by
+    intro n; simp [List.range_succ]
+  cases isB
+  · -- request from A
+    cases hq : c.qA with
+    | nil =>
+      simp only [stepFn, Coord.request, hq, List.isEmpty_nil, Bool.false_eq_true, ↓reduceIte, List.nil_append,
+        List.head?_cons, List.tail_cons, Inv]
+      refine ⟨?_, ?_, ?_⟩
+      · simp only [List.length_append, List.length_singleton, hrange]; rw [← hd]
+      · rw [hq] at ha; simp [← ha]
+      · simp [← hb]
+    | cons x xs =>
+      simp only [stepFn, Coord.request, hq, List.isEmpty_cons, Bool.false_eq_true, ↓reduceIte, List.head?_cons, List.tail_cons, Inv]
+      refine ⟨hd, ?_, hb⟩
+      rw [hq] at ha; simp [← ha]
+  · -- request from B
+    cases hq : c.qB with
+    | nil =>
+      simp only [stepFn, Coord.request, hq, List.isEmpty_nil, ↓reduceIte, List.nil_append, List.head?_cons, List.tail_cons, Inv]
+      refine ⟨?_, ?_, ?_⟩
+      · simp only [List.length_append, List.length_singleton, hrange]; rw [← hd]
+      · simp [← ha]
+      · rw [hq] at hb; simp [← hb]
+    | cons x xs =>
+      simp only [stepFn, Coord.request, hq, List.isEmpty_cons, Bool.false_eq_true, ↓reduceIte, List.head?_cons, List.tail_cons, Inv]
+      refine ⟨hd, ha, ?_⟩
+      rw [hq] at hb; simp [← hb]
+
+theorem inv_run (src : Nat → β × β) (reqs : List Bool) : Inv src (run src reqs) := by
+  have key : ∀ (l : List Bool) (st : Coord β × List β × List β), Inv src st → Inv src (l.foldl (stepFn src) st) := by
+    intro l
+    induction l with
+    | nil => intro st h; exact h
+    | cons r rs ih => intro st h; exact ih _ (inv_step src st r h)
+  exact key reqs _ (inv_init src)
+
+/-- **pairing, for every interleaving**: the `k`-th factor delivered to A and the `k`-th delivered to
+B are the two components of draw `k`; nothing is repeated, dropped or reordered -/
+theorem pairing (src : Nat → β × β) (reqs : List Bool) (k : Nat) :
+    (∀ x, (run src reqs).2.1[k]? = some x → x = (src k).1) ∧
+    (∀ y, (run src reqs).2.2[k]? = some y → y = (src k).2) := by
+  obtain ⟨hd, ha, hb⟩ := inv_run src reqs
+  set st := run src reqs
+  have hA : ∀ x, st.2.1[k]? = some x → (st.1.draws.map Prod.fst)[k]? = some x := by
+    intro x hx; rw [← ha, List.getElem?_append_left (by
+      have := List.getElem?_eq_some_iff.mp hx; exact this.1)]; exact hx
+  have hB : ∀ y, st.2.2[k]? = some y → (st.1.draws.map Prod.snd)[k]? = some y := by
+    intro y hy; rw [← hb, List.getElem?_append_left (by
+      have := List.getElem?_eq_some_iff.mp hy; exact this.1)]; exact hy
+  have hidx : ∀ (z : β) (f : β × β → β), (st.1.draws.map f)[k]? = some z → z = f (src k) := by
+    intro z f hz
+    rw [hd] at hz
+    simp only [List.map_map, List.getElem?_map, Option.map_eq_some_iff] at hz
+    obtain ⟨a, ha1, ha2⟩ := hz
+    obtain ⟨hlt, heq⟩ := List.getElem?_eq_some_iff.mp ha1
+    simp only [List.getElem_range] at heq
+    rw [← ha2, ← heq]; rfl
+  exact ⟨fun x hx => hidx x Prod.fst (hA x hx), fun y hy => hidx y Prod.snd (hB y hy)⟩
+/-- every draw is enqueued exactly once for each mode: delivered ++ pending = the draws, in order -/
+theorem each_draw_once (src : Nat → β × β) (reqs : List Bool) :
+    (run src reqs).2.1 ++ (run src reqs).1.qA = (run src reqs).1.draws.map Prod.fst ∧
+    (run src reqs).2.2 ++ (run src reqs).1.qB = (run src reqs).1.draws.map Prod.snd :=
+  ⟨(inv_run src reqs).2.1, (inv_run src reqs).2.2⟩
+end pairing
+
+/-! ## the matrix square root of the log-covariance -/
+section root
+variable {K : Type} [Field K] [LinearOrder K] [IsStrictOrderedRing K] [DecidableEq K]
+
+/-- `((C + s I)/t)² = C` whenever `s² = det C` and `t² = tr C + 2 s ≠ 0` (Cayley–Hamilton) -/
+theorem sqrt22_squares (c00 c01 c10 c11 s t : K) (hs : s * s = c00*c11 - c01*c10) (ht : t * t = c00 + c11 + 2 * s) (ht0 : t ≠ 0) :
+    let m00 := (s + c00)/t; let m01 := (0 + c01)/t; let m10 := (0 + c10)/t; let m11 := (s + c11)/t
+    m00*m00 + m01*m10 = c00 ∧ m00*m01 + m01*m11 = c01 ∧ m10*m00 + m11*m10 = c10 ∧ m10*m01 + m11*m11 = c11 := by
+  have ht2 : t ^ 2 = c00 + c11 + 2 * s := by rw [sq]; exact ht
+  refine ⟨?_, ?_, ?_, ?_⟩ <;> field_simp <;> rw [ht2] <;> nlinarith [hs]
+/-- the model's `sqrt22` with exact leaves is that root -/
+theorem sqrt22_model (sqrtF : K → K) (c00 c01 c10 c11 : K)
+    (hs : sqrtF (c00*c11 - c01*c10) * sqrtF (c00*c11 - c01*c10) = c00*c11 - c01*c10)
+    (ht : sqrtF (c00 + c11 + 2 * sqrtF (c00*c11 - c01*c10)) * sqrtF (c00 + c11 + 2 * sqrtF (c00*c11 - c01*c10))
+      = c00 + c11 + 2 * sqrtF (c00*c11 - c01*c10))
+    (ht0 : sqrtF (c00 + c11 + 2 * sqrtF (c00*c11 - c01*c10)) ≠ 0) :
+    let r := Sim.sqrt22 sqrtF id c00 c01 c10 c11
+    r.1*r.1 + r.2.1*r.2.2.1 = c00 ∧ r.1*r.2.1 + r.2.1*r.2.2.2 = c01 := by
+  have := sqrt22_squares c00 c01 c10 c11 _ _ hs ht ht0
+  simp only [Sim.sqrt22, id, two_eq, zero_eq] at this ⊢
+  exact ⟨this.1, this.2.1⟩
+/-- **edge definedness under adversarial rounding**: with the clamp, whatever value `d̃` the computed
+determinant takes, the argument of the first root is non-negative; with a positive-definite-or-singular
+log-covariance (`c00, c11 ≥ 0`, not both zero) the second root's argument is positive -/
+theorem sqrt22_defined_any_rounding (dT c00 c11 s : K) (h00 : 0 ≤ c00) (h11 : 0 ≤ c11) (hpos : 0 < c00 + c11)
+    (hs : 0 ≤ s) : 0 ≤ max dT 0 ∧ 0 < c00 + c11 + 2 * s := by
+  constructor
+  · exact le_max_right _ _
+  · linarith
+/-- without the clamp a determinant that rounds below zero has no real root -/
+theorem no_root_of_negative (d r : K) (hd : d < 0) : r * r ≠ d := by
+  intro h; nlinarith [mul_self_nonneg r]
+theorem current_clamped : Sim.currentSqrt22Clamped = true := rfl
+
+/-! ## acceptance: exactly the closed interval of admissible correlations -/
+theorem accepted_iff (expF logF sqrtF : K → K) (clamp : K → K) (rho ls0 ls1 : K) :
+    let beta0 := sqrtF (expF (ls0*ls0) - 1); let beta1 := sqrtF (expF (ls1*ls1) - 1)
+    let maxC := (expF (ls0*ls1) - 1) / (beta0*beta1); let minC := (expF ((-ls0)*ls1) - 1) / (beta0*beta1)
+    (∃ m, Sim.covBuild expF logF sqrtF (fun a b => decide (a > b)) (fun a b => decide (a < b)) clamp rho ls0 ls1 = .ok m)
+      ↔ (minC ≤ rho ∧ rho ≤ maxC) := by
+  intro beta0 beta1 maxC minC
+  unfold Sim.covBuild
+  simp only [one_eq, decide_eq_true_eq]
+  constructor
+  · rintro ⟨m, hm⟩
+    split_ifs at hm with h1 h2
+    exact ⟨not_lt.mp h2, not_lt.mp h1⟩
+  · rintro ⟨h2, h1⟩
+    rw [if_neg (not_lt.mpr h1), if_neg (not_lt.mpr h2)]
+    exact ⟨_, rfl⟩
+end root
+
+/-! non-vacuity: the interleaving `A A B` -/
+example : (run (fun k => ((k : ℚ), (k : ℚ) + 1/2)) [false, false, true]).2.1 = [0, 1] ∧
+    (run (fun k => ((k : ℚ), (k : ℚ) + 1/2)) [false, false, true]).2.2 = [1/2] := by
+  simp [run, stepFn, Coord.request]
+
 end Epsic.C08
